@@ -22,10 +22,11 @@ pub fn model_from_case(case: &Value) -> Value {
     m
 }
 
-fn u(v: &Value) -> u32 {
+pub fn u(v: &Value) -> u32 {
     let x = v.as_i64().unwrap();
-    // -1: none;  2147483647: the stand-in for u32::MAX (extreme positions)
-    if x < 0 || x == 2147483647 { !0 } else { x as u32 }
+    // -1: none;  2147483647: the stand-in for u32::MAX;  2^30+1 / +2 / +3: the stand-ins for 2^31-1, 2^31, 2^31+5
+    // (extreme positions on either side of the sign bit; see doc::num)
+    if x < 0 || x == 2147483647 { !0 } else if x == (1 << 30) + 1 { (1u32 << 31) - 1 } else if x == (1 << 30) + 2 { 1u32 << 31 } else if x == (1 << 30) + 3 { (1u32 << 31) + 5 } else { x as u32 }
 }
 pub fn raw_tokens(m: &Value) -> Vec<RawToken> {
     m["toks"].as_array().unwrap().iter().map(|t| RawToken {
